@@ -16,14 +16,24 @@
 (*   scc               a *query* caller subscribes to the entry's Notify    *)
 (*                     (notified_owned() is created while the entry is      *)
 (*                     read-locked) and waits; a user caller goes on        *)
-(*   fast              verified in this epoch -> return                     *)
-(*   lock              computing_lock_guard: re-check verified (-> fast);   *)
-(*                     entry occupied -> subscribe and wait, then retry;    *)
-(*                     vacant -> insert the entry, execute                  *)
+(*   fast              under the read snapshot of the query: verified in    *)
+(*                     this epoch -> return; otherwise                      *)
+(*                     computing_lock_guard: entry occupied -> subscribe    *)
+(*                     and wait, then retry; vacant -> insert the entry,    *)
+(*                     execute                                              *)
 (*   exec              the executor reads its dependencies one by one       *)
-(*                     (a nested frame each)                                *)
-(*   publish           set_computed + ComputingLockGuard::done: mark        *)
-(*                     verified, remove the entry, wake every subscriber    *)
+(*                     (a nested frame each); when it returns, set_computed *)
+(*                     marks the query verified                             *)
+(*   publish           ComputingLockGuard::done: remove the entry, wake     *)
+(*                     every subscriber; then the loop of query_for starts  *)
+(*                     over (start -> fast -> hit)                          *)
+(*                                                                         *)
+(* The program counters are the cfg-guarded points of the code             *)
+(* (qbice::verif::point_query): start = q_start, fast = q_fast,            *)
+(* scc_wait = q_scc_wait, lock_wait = q_lock_wait, publish = q_publish;    *)
+(* exec = the executor body between two dependency reads.  A    *)
+(* behaviour of this module is therefore a schedule that can be forced on  *)
+(* the real engine step by step (EngineConcGen, harness conc_sched).       *)
 (*                                                                         *)
 (* tokio's notify_waiters() wakes exactly the Notified futures that exist   *)
 (* when it is called, polled or not; a future created later waits for the   *)
@@ -91,59 +101,68 @@ LateSubscribe(t) ==
 Woken(t) ==
     /\ Active(t) /\ Top(t).pc \in {"scc_wait", "lock_wait"}
     /\ t \notin sub[Top(t).q]
-    /\ stack' = SetTop(t, [Top(t) EXCEPT !.pc = "fast"])
+    \* exit_scc returns and query_for goes on to the fast path; a failed
+    \* computing_lock_guard makes query_for start its loop over
+    /\ stack' = SetTop(t, [Top(t) EXCEPT !.pc = IF Top(t).pc = "scc_wait" THEN "fast" ELSE "start"])
     /\ UNCHANGED <<verified, computing, owner, sub, execs>>
 
-Fast(t) ==
+(* One critical section of the code: query_for takes the read snapshot of   *)
+(* the query (which excludes set_computed of the same query), tries the     *)
+(* fast path and, on a miss, goes straight into computing_lock_guard with   *)
+(* the snapshot still held: re-check, then either subscribe to the existing *)
+(* entry or insert a new one.                                               *)
+FastHit(t) ==
     /\ Active(t) /\ Top(t).pc = "fast"
-    /\ IF Top(t).q \in verified
-       THEN stack' = Pop(t)                      \* hit: value returned to the caller frame
-       ELSE stack' = SetTop(t, [Top(t) EXCEPT !.pc = "lock"])
+    /\ Top(t).q \in verified
+    /\ stack' = Pop(t)                      \* value returned to the caller frame
     /\ UNCHANGED <<verified, computing, owner, sub, execs>>
 
-Lock(t) ==
-    /\ Active(t) /\ Top(t).pc = "lock"
+FastMiss(t) ==
+    /\ Active(t) /\ Top(t).pc = "fast"
     /\ LET q == Top(t).q IN
-       IF q \in verified
-       THEN /\ stack' = SetTop(t, [Top(t) EXCEPT !.pc = "fast"])
-            /\ UNCHANGED <<computing, owner, sub>>
-       ELSE IF q \in computing
-       THEN /\ IF SubscribeLate
-               THEN /\ stack' = SetTop(t, [Top(t) EXCEPT !.pc = "lock_sub"]) /\ UNCHANGED sub
-               ELSE /\ sub' = [sub EXCEPT ![q] = @ \cup {t}]
-                    /\ stack' = SetTop(t, [Top(t) EXCEPT !.pc = "lock_wait"])
-            /\ UNCHANGED <<computing, owner>>
-       ELSE /\ computing' = computing \cup {q}
-            /\ owner' = [owner EXCEPT ![q] = t]
-            /\ stack' = SetTop(t, [Top(t) EXCEPT !.pc = "exec"])
-            /\ UNCHANGED sub
+       /\ q \notin verified
+       /\ IF q \in computing
+          THEN /\ IF SubscribeLate
+                  THEN /\ stack' = SetTop(t, [Top(t) EXCEPT !.pc = "lock_sub"]) /\ UNCHANGED sub
+                  ELSE /\ sub' = [sub EXCEPT ![q] = @ \cup {t}]
+                       /\ stack' = SetTop(t, [Top(t) EXCEPT !.pc = "lock_wait"])
+               /\ UNCHANGED <<computing, owner>>
+          ELSE /\ computing' = computing \cup {q}
+               /\ owner' = [owner EXCEPT ![q] = t]
+               /\ stack' = SetTop(t, [Top(t) EXCEPT !.pc = "exec"])
+               /\ UNCHANGED sub
     /\ UNCHANGED <<verified, execs>>
+
+Fast(t) == FastHit(t) \/ FastMiss(t)
 
 (* the executor asks for its next dependency, or is done *)
 Exec(t) ==
     /\ Active(t) /\ Top(t).pc = "exec"
     /\ LET f == Top(t) IN
        IF f.i <= Len(Deps[f.q])
-       THEN stack' = [stack EXCEPT ![t] =
+       THEN /\ stack' = [stack EXCEPT ![t] =
                           Append([@ EXCEPT ![Len(@)] = [f EXCEPT !.i = f.i + 1]],
                                  Frame(Deps[f.q][f.i], "start"))]
-       ELSE stack' = SetTop(t, [f EXCEPT !.pc = "publish"])
-    /\ UNCHANGED <<verified, computing, owner, sub, execs>>
+            /\ UNCHANGED <<verified, execs>>
+       ELSE \* the executor returned: set_computed
+            /\ stack' = SetTop(t, [f EXCEPT !.pc = "publish"])
+            /\ verified' = verified \cup {f.q}
+            /\ execs' = [execs EXCEPT ![f.q] = @ + 1]
+    /\ UNCHANGED <<computing, owner, sub>>
 
 Publish(t) ==
     /\ Active(t) /\ Top(t).pc = "publish"
     /\ LET q == Top(t).q IN
-       /\ verified' = verified \cup {q}
        /\ computing' = computing \ {q}
        /\ owner' = [owner EXCEPT ![q] = None]
        /\ sub' = [sub EXCEPT ![q] = {}]          \* notify_waiters
-       /\ execs' = [execs EXCEPT ![q] = @ + 1]
-    /\ stack' = SetTop(t, [Top(t) EXCEPT !.pc = "fast"])
+    /\ stack' = SetTop(t, [Top(t) EXCEPT !.pc = "start"])
+    /\ UNCHANGED <<verified, execs>>
 
-Next == \E t \in Tasks : Start(t) \/ LateSubscribe(t) \/ Woken(t) \/ Fast(t) \/ Lock(t) \/ Exec(t) \/ Publish(t)
+Next == \E t \in Tasks : Start(t) \/ LateSubscribe(t) \/ Woken(t) \/ Fast(t) \/ Exec(t) \/ Publish(t)
 
 Spec == Init /\ [][Next]_vars
-FairSpec == Spec /\ \A t \in Tasks : WF_vars(Start(t) \/ LateSubscribe(t) \/ Woken(t) \/ Fast(t) \/ Lock(t) \/ Exec(t) \/ Publish(t))
+FairSpec == Spec /\ \A t \in Tasks : WF_vars(Start(t) \/ LateSubscribe(t) \/ Woken(t) \/ Fast(t) \/ Exec(t) \/ Publish(t))
 
 (* C02: one query key is never executed by two tasks at once *)
 Executing(t, q) == \E k \in 1..Len(stack[t]) : stack[t][k].q = q /\ stack[t][k].pc \in {"exec", "publish"}
